@@ -361,6 +361,7 @@ func Unit(res *vc.UnitResult, opt Options) ([]Status, error) {
 	// stage 2: individual race for everything that is not as expected. Instances of one named obligation are
 	// tried one after the other and the first definitive failure stops the name (the other instances inherit it).
 	byName := map[string][]int{}
+	crossChecked := map[string]bool{}
 	var names []string
 	for _, i := range pending {
 		o := res.Obligations[i]
@@ -370,8 +371,13 @@ func Unit(res *vc.UnitResult, opt Options) ([]Status, error) {
 		} else {
 			need = out[i].Result != "unsat"
 		}
-		if opt.AllBackends && !o.Cover {
-			need = true
+		if opt.AllBackends && !o.Cover && !need {
+			// thorough tier: every named obligation is put to all three back ends on one of its path instances (agreement
+			// check); the other instances keep the batch answer
+			if !crossChecked[o.Name] {
+				crossChecked[o.Name] = true
+				need = true
+			}
 		}
 		if !need {
 			continue
@@ -382,7 +388,7 @@ func Unit(res *vc.UnitResult, opt Options) ([]Status, error) {
 		byName[o.Name] = append(byName[o.Name], i)
 	}
 	var wg sync.WaitGroup
-	sem := make(chan struct{}, 4)
+	sem := make(chan struct{}, 6)
 	for _, name := range names {
 		wg.Add(1)
 		go func(idx []int) {
